@@ -3,7 +3,7 @@
    statements, `exact` and Print Assumptions. *)
 From Coq Require Import QArith.
 From GV Require Import Vedirect.DrvSem Gen.DrvImpl Vedirect.DrvRefine Api.ApiSem Gen.ApiImpl Api.ApiRefine
-     Api.ApiRefineTables Api.ApiProps.
+     Api.ApiRefineTables Api.ApiProps Api.ApiValueFacts Api.ApiMapsRefine.
 Import ListNotations.
 Local Open Scope Z_scope.
 
@@ -20,4 +20,19 @@ Theorem C10_api_stream_product_lists : forall c id h cn v,
           (stream_register_list c h (snd (obs_reglist id)) cn v) cn.
 Proof. exact go_stream_product_lists. Qed.
 Print Assumptions C10_api_stream_product_lists.
+
+(* ReadRegisterList of the translated source (the map-returning variant: the four collector closures over the stream):
+   the same end of the stream and driver state as the model's read_register_list, and per value kind the same map from
+   register names to values -- what the handlers of StreamRegisterList would have been given, nothing else *)
+Theorem C10_api_ReadRegisterList : forall c rl cn v, reglist_ok rl ->
+  readlist_rel (go_ReadRegisterList c tt rl (mkA (mkD v false) [] cn)) (GV.Api.Maps.read_register_list c rl cn v).
+Proof. exact go_ReadRegisterList_refines. Qed.
+Print Assumptions C10_api_ReadRegisterList.
+
+Theorem C10_api_ReadRegisterList_collects : forall c rl cn v G e s', reglist_ok rl ->
+  go_ReadRegisterList c tt rl (mkA (mkD v false) [] cn) = (DVal (G, e), s') ->
+  exists acc, G = fold_left g_put (map gpair acc) (mkRV [] [] [] []) /\ a_out s' = map gpair acc /\
+              snd (fst (stream_register_list c all_handlers rl cn v)) = acc.
+Proof. exact go_ReadRegisterList_collects. Qed.
+Print Assumptions C10_api_ReadRegisterList_collects.
 
